@@ -50,13 +50,18 @@ impl Mesh {
     pub fn sample_dense(&self, max_spacing: f64) -> Vec<SurfacePoint3> {
         let mut sampled = Vec::new();
         for face in self.shape.triangles() {
+            // A degenerate (zero-area) face has no normal and no surface to sample
+            let Some(normal) = face.normal() else {
+                continue;
+            };
+
             // If the triangle is too small, just add the center point.
             let center = mean_point(&[face.a, face.b, face.c]);
             if dist(&face.a, &center) < max_spacing
                 && dist(&face.b, &center) < max_spacing
                 && dist(&face.c, &center) < max_spacing
             {
-                sampled.push(SurfacePoint3::new(center, face.normal().unwrap()));
+                sampled.push(SurfacePoint3::new(center, normal));
                 continue;
             }
 
@@ -91,7 +96,7 @@ impl Mesh {
                     let vf = vi as f64 / nv;
                     if uf + vf <= 1.0 {
                         let p = p + u * uf + v * vf;
-                        let sp = SurfacePoint3::new(p, face.normal().unwrap());
+                        let sp = SurfacePoint3::new(p, normal);
                         sampled.push(sp);
                     }
                 }
